@@ -31,7 +31,10 @@ EXPLANATION = (
     "C13_member_shows_own_element / C13_member_cells / C13_formula_op_member / C13_formula_fun_member hold "
     "for all result shapes, target shapes and member positions; the model is compared with ExcelCompiler on "
     "every cell of every target of the generated workbooks (value side) and on the texts written into the "
-    "member cells (sheet side); the end-to-end oracle stays.")
+    "member cells (sheet side); the end-to-end oracle stays.  C13_range_shows_cells (Proofs/C13Ranges.v): any "
+    "rectangle of a coherent sheet evaluates to a matrix of what its cells show (range_formula as repaired in "
+    "50c2e69); tie: range_formula / sheet_range_value against ExcelCompiler on ranges around two adjacent "
+    "array formulas, with the oracle 'a range shows its cells' own values' on every such range.")
 
 OPS = ['Add', 'Sub', 'Mult', 'Div', 'Pow', 'BitAnd', 'USub', 'Eq', 'NotEq', 'Lt', 'LtE', 'Gt', 'GtE']
 OP_TEXT = {'Add': '+', 'Sub': '-', 'Mult': '*', 'Div': '/', 'Pow': '^', 'BitAnd': '&', 'Eq': '=',
@@ -175,7 +178,7 @@ def _scalar_error_short_circuit(case):
 
 @known_predicate('C13-empty-marker-text-shown-as-zero')
 def _empty_marker_text(case):
-    """Inert (the generators never produce this text).  eval_func returns 0 for a formula value that is
+    """Exercised by empty_marker() below (one deterministic workbook).  eval_func returns 0 for a formula value that is
     None or equals pycel's blank marker '#EMPTY!' (excelformula.py `ret_val not in (None, EMPTY)`), so a
     member cell whose own element is the TEXT "#EMPTY!" (e.g. ="#EMPTY"&"!" entered over a range) shows 0
     while evaluate(range) shows the text.  Model: Model/CseCells.v eval_formula / shown."""
@@ -400,6 +403,9 @@ def run(ctx):
     # ================================================= 5. which range is an array formula's range
     range_formulas(ctx, fixup)
 
+    # ================================================= 6. the text "#EMPTY!" as an element
+    empty_marker(ctx)
+
 
 def cell_value(ctx):
     """Values a worksheet cell can hold (text that openpyxl would read as a formula is avoided)."""
@@ -609,6 +615,40 @@ def impl_range_formula(comp, ref):
         assert f.startswith('={') and f.endswith('}'), f
         return (True, f[2:-1])
     return (False,)
+
+
+def empty_marker(ctx):
+    """One deterministic workbook: A1 = "#EMPTY", B1 = "x", =A1:B1&"!" entered over F10:G10.  The element
+    of F10 is the TEXT "#EMPTY!" (pycel's blank marker): the range shows it, the member cell shows 0
+    (known finding C13-empty-marker-text-shown-as-zero); the model agrees with the implementation."""
+    from openpyxl import Workbook
+    from openpyxl.worksheet.formula import ArrayFormula
+    from pycel import ExcelCompiler
+    wb = Workbook()
+    ws = wb.active
+    ws['A1'], ws['B1'] = '#EMPTY', 'x'
+    formula = '=A1:B1&"!"'
+    ws['F10'] = ArrayFormula('F10:G10', formula)
+    comp = ExcelCompiler(excel=wb)
+    want = ('#EMPTY!', 'x!')
+    case = dict(call='array-formula', args=[(('#EMPTY', 'x'),), 'BitAnd', '!'], formula=formula, target='F10:G10')
+    got = run_impl(comp.evaluate, 'Sheet!F10:G10')
+    ctx.count(('empty-marker', 'range'), kind='e2e:empty-marker')
+    if got != ('ok', want):
+        ctx.violation(case, "array formula over the target range is not the fitted pointwise result",
+                      impl=got, expected=want)
+    cells = [run_impl(comp.evaluate, f'Sheet!{c}10') for c in 'FG']
+    for j, gm in enumerate(cells):
+        ctx.count(('empty-marker', j), kind='e2e:empty-marker')
+        if gm != ('ok', want[j]):
+            ctx.violation(dict(case, member=f'Sheet!{"FG"[j]}10', element=want[j]),
+                          "member cell does not show its own element", impl=gm, expected=want[j])
+    if ctx.model:
+        m = dec_res(ctx.model.batch([('target_cells', [1, 2, enc_val((want,))])])[0])
+        im = ('ok', (tuple(x[1] for x in cells),)) if all(x[0] == 'ok' for x in cells) else cells[0]
+        if not skip_model(m) and not same(m, im):
+            ctx.divergence(dict(case, call='target-cells'), im, m,
+                           'Model/CseCells.v target_cells on the text "#EMPTY!"')
 
 
 def range_formulas(ctx, fixup):
